@@ -182,12 +182,26 @@ def row_key(alg) -> str:
                      ET.pad_name(getattr(alg, "padding", None))]), fam
 
 
+def gallina_json_ok(v) -> bool:
+    """the fragment of model/Json.v (json_ok): no floats, str keys, no lone surrogates"""
+    if v is None or isinstance(v, (bool, int)):
+        return True
+    if isinstance(v, str):
+        return not any(0xD800 <= ord(c) <= 0xDFFF for c in v)
+    if isinstance(v, list):
+        return all(gallina_json_ok(x) for x in v)
+    if isinstance(v, dict):
+        return all(isinstance(k, str) and gallina_json_ok(k) and gallina_json_ok(x) for k, x in v.items())
+    return False
+
+
 class Recorder:
     """While active: every json.loads / json.dumps of joserfc.util, every
     alg.sign / alg.verify of the registered JWS algorithm singletons and the
     (r, s) pairs crossing encode_dss_signature / decode_dss_signature are logged."""
 
     def __init__(self):
+        self.gallina_json = 0   # json calls left to the Gallina JSON model (no oracle row)
         self.rows = []       # Coq [orow] terms of the current case
         self.calls = []      # (op, alg name, key, msg, sig, result tuple, rs) of the current case
 
@@ -211,10 +225,15 @@ class Recorder:
             def loads(s, *a, **kw):
                 r = call(real_json.loads, s, *a, **kw)
                 raw = s if isinstance(s, bytes) else s.encode("utf-8")
-                try:
-                    rec.rows.append("OLoads %s %s" % (c_hex(raw), c_res(r, c_pv)))
-                except TypeError:
-                    pass
+                # the Gallina JSON parser (model/Json.v) evaluates ASCII texts whose value is
+                # float-free itself; the recorded row is kept for everything else
+                if not (r[0] == "ok" and gallina_json_ok(r[1]) and all(b < 128 for b in raw)):
+                    try:
+                        rec.rows.append("OLoads %s %s" % (c_hex(raw), c_res(r, c_pv)))
+                    except TypeError:
+                        pass
+                else:
+                    rec.gallina_json += 1
                 if r[0] == "err":
                     raise r[1]
                 return r[1]
@@ -222,10 +241,13 @@ class Recorder:
             @staticmethod
             def dumps(o, *a, **kw):
                 out = real_json.dumps(o, *a, **kw)
-                try:
-                    rec.rows.append("ODumps %s %s" % (c_pv(o), c_hex(out.encode("utf-8"))))
-                except TypeError:
-                    pass
+                if not (gallina_json_ok(o) and kw == {"ensure_ascii": True, "separators": (",", ":")} and not a):
+                    try:
+                        rec.rows.append("ODumps %s %s" % (c_pv(o), c_hex(out.encode("utf-8"))))
+                    except TypeError:
+                        pass
+                else:
+                    rec.gallina_json += 1
                 return out
         U.json = JsonProxy
         self._cur = {}
